@@ -32,9 +32,10 @@ func badCookie(c *Ctx, tw *TunWorld, p *TunPlan) (string, string) {
 		return MintCookie(c, tw.Cfg.PAASigningKey, p.User, p.AllowedHost, ip, "at-unknown", 5*time.Minute), "unknown-access-token"
 	default:
 		v := ValidCookie(c, tw, p, p.AllowedHost)
-		// flip one character of the signature
+		// flip one character of the signature (not the last one: its low bits are base64
+		// slack, and a change there spells the same signature)
 		b := []byte(v)
-		i := len(b) - 1 - c.T.Choose(20)
+		i := len(b) - 2 - c.T.Choose(20)
 		if b[i] == 'A' {
 			b[i] = 'B'
 		} else {
